@@ -842,4 +842,20 @@ theorem blockSearch_spec (len : Nat) (thrB : Int) (segs : List (List Int)) :
         · split <;> omega
         · omega
 
+theorem inj_of_nodup_map {α β} (f : α → β) :
+    ∀ (xs : List α), (xs.map f).Nodup → ∀ a ∈ xs, ∀ b ∈ xs, f a = f b → a = b := by
+  intro xs
+  induction xs with
+  | nil => intro _ a ha; simp at ha
+  | cons x xs ih =>
+    intro hn a ha b hb hab
+    simp only [List.map_cons, List.nodup_cons, List.mem_map, not_exists, not_and] at hn
+    rcases List.mem_cons.mp ha with rfl | ha'
+    · rcases List.mem_cons.mp hb with rfl | hb'
+      · rfl
+      · exact absurd hab.symm (hn.1 b hb')
+    · rcases List.mem_cons.mp hb with rfl | hb'
+      · exact absurd hab (hn.1 a ha')
+      · exact ih hn.2 a ha' b hb' hab
+
 end Coupe.Par
